@@ -138,7 +138,7 @@ def cmd_run(prop, tier):
         # size the thorough tier by total wall time: cap the per-shard budget so that the worst case (every shard
         # running into its budget) stays near the target; shards that exhaust their tree earlier are unaffected
         target = float(os.environ.get('VERIF_THOROUGH_WALL', '1500'))
-        cap = max(15.0, target * NPROC / max(1, len(shards)))
+        cap = max(4.0, target * NPROC / max(1, len(shards)))
         for sp in shards:
             sp['budget_s'] = min(sp['budget_s'], cap)
     results = run_shards(prop, shards, seed)
